@@ -24,7 +24,8 @@ if ast.unparse(ast.BinOp(ast.Constant(-1), ast.Pow(), ast.Constant(2))) == "-1 *
         def visit_Constant(self, node):
             v = node.value
             new = None
-            if type(v) in (int, float) and _math.copysign(1, v) < 0:
+            if (type(v) is int and v < 0) or (
+                    type(v) is float and _math.copysign(1, v) < 0):
                 new = ast.UnaryOp(ast.USub(), ast.Constant(-v))
             elif (type(v) is complex and _math.copysign(1, v.real) > 0
                     and v.real == 0 and v.imag < 0):
